@@ -243,12 +243,9 @@ impl FmtAttribute {
                     .iter()
                     .find_map(|a| (a.alias()? == &name).then_some(&a.expr))
                     .map_or(Some(name), |expr| expr.ident().map(ToString::to_string))?,
-                Parameter::Positional(i) => self
-                    .args
-                    .iter()
-                    .nth(i)
-                    .and_then(|a| a.expr.ident().filter(|_| a.alias.is_none()))?
-                    .to_string(),
+                Parameter::Positional(i) => {
+                    self.args.iter().nth(i)?.expr.ident()?.to_string()
+                }
             };
 
             let unnamed = name.strip_prefix('_').and_then(|s| s.parse().ok());
@@ -299,7 +296,7 @@ impl FmtAttribute {
                     .args
                     .iter()
                     .nth(*i)
-                    .and_then(|a| a.expr.ident().filter(|_| a.alias.is_none()))
+                    .and_then(|a| a.expr.ident())
                     .map(ToString::to_string),
             }
             .as_deref()
